@@ -111,8 +111,14 @@ func ruleKeyUpdate(c *Ctx, r *Report) {
 	const rule3 = "read-generation-install"
 	if hk := c.need(r, rule3, "(*"+pkgHS+".postHandshake).handleKeyUpdate"); hk != nil {
 		r.Sites += len(hk.Blocks)
-		inst := findCalls(hk, nameHasSuffix("TrafficKeyState).Install"))
-		setR := findCalls(hk, nameHasSuffix(").SetRemoteEpoch"))
+		// (in handleKeyUpdate, or in a helper of the package it calls)
+		follow := followSamePkg(hk)
+		inst := callsReached(hk, follow, func(cl *ssa.Call) bool {
+			return strings.HasSuffix(calleeName(&cl.Call), "TrafficKeyState).Install")
+		})
+		setR := callsReached(hk, follow, func(cl *ssa.Call) bool {
+			return strings.HasSuffix(calleeName(&cl.Call), ").SetRemoteEpoch")
+		})
 		if len(inst) != 1 || len(setR) != 1 {
 			r.Bad(rule3, short(hk), c.pos(hk.Pos()), "handleKeyUpdate no longer installs the next read generation and advances the remote epoch exactly once")
 		} else {
@@ -127,11 +133,14 @@ func ruleKeyUpdate(c *Ctx, r *Report) {
 					if !isEpochCmp {
 						continue
 					}
-					w := (&Walk{Fn: hk, Assume: assumeAll(atomAssume{mValue(bo), vBool(true)})}).FromEntry()
+					w := (&Walk{Fn: hk, Follow: follow, Assume: assumeAll(atomAssume{mValue(bo), vBool(true)})}).FromEntry()
 					r.Check(!w.Reached[inst[0]] && !w.Reached[setR[0]], rule3, short(hk)+":guard:"+shapeOf(bo.X, 0), c.ipos(bo), "a KeyUpdate from another epoch installs nothing", "a KeyUpdate received under an epoch other than the current read epoch can advance the read keys")
 				}
 			}
-			r.Check(isNilConst(inst[0].Call.Args[1]) && isCallResult(inst[0].Call.Args[2], nameHasSuffix("postHandshake).nextTrafficGeneration")), rule3, short(hk)+":install-args", c.ipos(inst[0]), "Install(nil, next read generation)", "handleKeyUpdate installs something other than (no write generation, the successor read generation)")
+			isNext := func(v ssa.Value) bool {
+				return isCallResult(v, nameHasSuffix("postHandshake).nextTrafficGeneration"))
+			}
+			r.Check(isNilConst(inst[0].Call.Args[1]) && c.allResolved(inst[0].Call.Args[2], isNext), rule3, short(hk)+":install-args", c.ipos(inst[0]), "Install(nil, next read generation)", "handleKeyUpdate installs something other than (no write generation, the successor read generation)")
 			r.Check(isFieldLoad(setR[0].Call.Args[len(setR[0].Call.Args)-1], tTG, "Epoch"), rule3, short(hk)+":remote-epoch", c.ipos(setR[0]), "remote epoch = next generation's epoch", "the remote epoch is not set to the successor generation's epoch")
 		}
 	}
